@@ -314,11 +314,14 @@ def span_order(ctx, lexpr):
     consuming = {P + "parse_byte_list", P + "parse_list_meta", P + "parse_vector_meta", P + "end_seq", P + "parse_token",
                  P + "parse_whitespace"}
     n = 0
-    for v in tok["variants"]:
-        if v["name"] == "Quotation":
+    tm = lex.TokenModel(lexpr)
+    for kind in tm.kinds():
+        if kind == "Quotation":
             continue
-        pay = [0x29 if fl["ty"] == "u8" else Opq("payload") for fl in v["fields"]]
-        tv = Adt("parse::Token", v["idx"], pay, v["name"])
+        tv = tm.make(kind, lambda ty: 0x29 if ty == "u8" else Opq("payload"))
+        if tv is None:
+            continue
+        v = {"name": kind}
 
         def hook(S, fn, bb, t, args, path, tv=tv):
             nm = F.callee_names(t)
